@@ -45,3 +45,11 @@ META["C13"] = dict(
     level_text="Exploration with an exhaustive sub-space (all strings of <=2 bytes and marker-alphabet strings of 3-4 bytes): every input the recursive parser accepts must get the same type and size from the probe and the opener, be a fixed point of re-parsing, have every visited field/element re-readable without error, and decode identically under 18 adversarial prefixes (varint-continuation lookalikes) plus a drawn prefix.",
     level_note="Only accepted inputs are in the domain (acceptance rate of mutants is reported: ~70%). Struct members are not visited by the parser and are not asserted.",
 )
+
+META["C12"] = dict(
+    engine="codec",
+    design_ref="DESIGN.md 3/C12",
+    technique="stateful property-based testing (rapid-drawn call sequences) plus bounded-exhaustive enumeration of all call sequences up to length 4 (5 in thorough) over a 30-action alphabet; invariants checked after every step",
+    level_text="Exploration with an exhaustive sub-space: every sequence of <=4 calls (8.4e5 programs) and rapid sequences of up to 30 calls over an owned writer and every handle derived from it, including stale copies and detached variables. After every call: no panic, the first error is what every reaching call and Err() report, a root Build that returns nil yields bytes that parse completely and whose nested data is readable; at the end Reset followed by a known-legal program must give the reference bytes and Free (twice) must be safe.",
+    level_note="Asserts only what the statement claims (no expectation about which misuse is detected). Detached-handle reading decision documented in DESIGN.md C12.",
+)
